@@ -33,8 +33,15 @@ func (u *UseCase) Set(ctx context.Context, key string, content io.Reader) error 
 
 	var (
 		minSize uint64
-		closer  io.Closer
+		closers []io.Closer
 	)
+	// The partially written files are the head of what is still to be stored: they stay open
+	// until the content has been stored completely (or the attempt is given up).
+	defer func() {
+		for _, closer := range closers {
+			closer.Close()
+		}
+	}()
 	for dir, ok := range dirs.Iterate(u.randGen) {
 		if !ok {
 			return fs_db.ErrNoFreeSpace
@@ -49,11 +56,7 @@ func (u *UseCase) Set(ctx context.Context, key string, content io.Reader) error 
 		if err != nil {
 			var errNotEnoughSpace model.NotEnoughSpaceError
 			if errors.As(err, &errNotEnoughSpace) {
-				if closer != nil {
-					closer.Close()
-				}
-
-				closer = errNotEnoughSpace
+				closers = append(closers, errNotEnoughSpace)
 				content = errNotEnoughSpace.Reader()
 				minSize = dir.Free
 				continue
@@ -63,10 +66,6 @@ func (u *UseCase) Set(ctx context.Context, key string, content io.Reader) error 
 		}
 
 		break
-	}
-
-	if closer != nil {
-		closer.Close()
 	}
 
 	err = u.cfRepo.Store(ctx, cFile)
